@@ -493,10 +493,10 @@ def gen_scenario(rng, ops=None, force=None):
             sprinkle_nodata(rng, nprng, data, nodata, pattern)
     else:
         sprinkle_nodata(rng, nprng, data, nodata, pattern)
-        # NaN cells only for whits: the GCV kernels *raise* on NaN input (unassigned best-fit), and an
-        # exception inside a gufunc loop combined with pending FP flags surfaces through numpy's
-        # warning machinery in a process-history-dependent way -- not a C12 matter, see DESIGN 9.4
-        if op == "whits" and dtype.startswith("float") and rng.random() < 0.25:
+        # NaN cells for the kernels that give NaN/inf zero weight (whits, whitswcv).  (Before /repo
+        # commit "fix: GCV smoothers keep a defined best fit ..." the GCV kernels raised on such
+        # input from inside the gufunc loop -- DESIGN 9.3 #8, 9.4.)
+        if op in ("whits", "whitswcv") and dtype.startswith("float") and rng.random() < 0.25:
             data[nprng.random(data.shape) < 0.05] = np.nan
 
     # degenerate pixels (early-exit branches of the kernels): all zero, constant, mostly zero, one spike
